@@ -19,6 +19,7 @@ import (
 	"io"
 	"net/http"
 	"strings"
+	"sync/atomic"
 
 	"github.com/brocaar/lorawan"
 	"github.com/brocaar/lorawan/backend"
@@ -79,6 +80,12 @@ var (
 	fRetryDup    = simrt.RegisterCounter("fault_duplicate_delivery")
 	fReqLost     = simrt.RegisterCounter("fault_request_lost")
 	fTruncResp   = simrt.RegisterCounter("fault_response_truncated")
+	fProvision   = simrt.RegisterCounter("fault_device_provisioned_after_first_requests")
+	fKEKRotate   = simrt.RegisterCounter("fault_kek_replaced_in_store")
+	fKEKInPlace  = simrt.RegisterCounter("fault_kek_rewritten_in_place")
+	fSlowLong    = simrt.RegisterCounter("fault_storage_slow_seconds_or_more")
+	cLateWrite   = simrt.RegisterCounter("probe_response_written_after_handler_returned")
+	cSlowFail    = simrt.RegisterCounter("probe_slow_storage_answered_non_success")
 	errInjected  = errors.New("injected storage failure")
 )
 
@@ -127,6 +134,98 @@ func resetGens() {
 	}
 }
 
+// which devices storage knows (an operator may provision one during the run)
+var knownArr [64]bool
+
+//go:norace
+func isKnown(i int) bool { return knownArr[i] }
+
+//go:norace
+func setKnown(i int, v bool) { knownArr[i] = v }
+
+// the KEK store: label -> key. Mutable during a run (re-keying), so it is a
+// small table behind norace accessors (harness bookkeeping like a database),
+// not a Go map.
+type kekEntry struct {
+	label string
+	kek   []byte
+	want  []byte // private copy of what the operator last stored under the label
+}
+
+var (
+	kekStore  [32]kekEntry
+	kekStoreN int
+)
+
+var kekPub int32
+
+//go:norace
+func kekGet(label string) []byte {
+	for i := 0; i < kekStoreN; i++ {
+		if kekStore[i].label == label {
+			return kekStore[i].kek
+		}
+	}
+	return nil
+}
+
+//go:norace
+func kekSet(label string, k []byte) {
+	for i := 0; i < kekStoreN; i++ {
+		if kekStore[i].label == label {
+			kekStore[i].kek = k
+			kekStore[i].want = append([]byte(nil), k...)
+			return
+		}
+	}
+	if kekStoreN < len(kekStore) {
+		kekStore[kekStoreN] = kekEntry{label, k, append([]byte(nil), k...)}
+		kekStoreN++
+	}
+}
+
+// kekRewritten: the bytes of a stored slice were rewritten in place; every
+// label that holds this very slice now has the new key.
+//
+//go:norace
+func kekRewritten(k []byte) {
+	for i := 0; i < kekStoreN; i++ {
+		if len(kekStore[i].kek) > 0 && len(k) > 0 && &kekStore[i].kek[0] == &k[0] {
+			kekStore[i].want = append([]byte(nil), k...)
+		}
+	}
+}
+
+//go:norace
+func kekWant(label string) []byte {
+	for i := 0; i < kekStoreN; i++ {
+		if kekStore[i].label == label {
+			return kekStore[i].want
+		}
+	}
+	return nil
+}
+
+//go:norace
+func kekLabels() []string {
+	out := make([]string, 0, kekStoreN)
+	for i := 0; i < kekStoreN; i++ {
+		out = append(out, kekStore[i].label)
+	}
+	return out
+}
+
+//go:norace
+func kekReset() {
+	for i := range kekStore {
+		kekStore[i] = kekEntry{}
+	}
+	kekStoreN = 0
+}
+
+//go:norace
+func handlerBusy() bool { return inHandler > 0 }
+
 // how many requests are inside the handler right now
 var inHandler int
 
@@ -148,7 +247,7 @@ type reqCtx struct {
 	failLabel bool
 	failNet   bool
 	overflow  bool
-	slow      bool
+	slow      int64 // virtual ns every storage callback of this request takes
 	bodyShort bool
 	bodyErrAt int // -1 none
 	writeErr  bool
@@ -159,50 +258,77 @@ type reqCtx struct {
 	firedNet   bool
 	gen        int // key generation storage served to this request
 	gotKeys    bool
+	notFound   bool // storage answered ErrDevEUINotFound to this delivery
 	nonce      int
-	nsKEK      []byte
+	nsKEK      []byte // copies of what storage served to this delivery
+	nsServed   bool
 	asLabel    string
 	asKEK      []byte
+	asServed   bool
+	slept      int64
 	kekCalls   int
+	nsLabel    string // the SenderID of the request this delivery belongs to
 	deliveries int
 }
 
 type world struct {
-	keks0   map[string][]byte // pristine copy of the KEK store
 	devs    []*devRec
 	byEUI   map[lorawan.EUI64]*devRec
 	keks    map[string][]byte
 	handler http.Handler
 	cur     [simrt.MaxTasks]*reqCtx
 	faults  bool
+	nNS     int
 }
 
 var theWorld *world
 
 func (w *world) ctx() *reqCtx {
-	c := w.cur[simrt.Current()]
+	// (a callback invoked from a goroutine the library started for a request
+	// belongs to that request)
+	var c *reqCtx
+	for t := simrt.Current(); t >= 0 && t < simrt.MaxTasks && c == nil; t = simrt.Parent(t) {
+		c = w.cur[t]
+	}
 	if c == nil {
 		c = &reqCtx{bodyErrAt: -1}
 	}
 	return c
 }
 
+// slowDown: a slow storage back-end (virtual time passes inside the callback).
+//
+// The storage callbacks keep the per-request record (what was served, which
+// fault fired). A handler may call them from several goroutines of one
+// request at the same time; a real store is safe for that, so the record is
+// harness bookkeeping outside the race detector's view (norace), like the
+// scheduler's own state.
+//
+//go:norace
+func (w *world) slowDown(c *reqCtx) {
+	if c.slow > 0 {
+		c.slept += c.slow
+		simrt.Sleep(c.slow)
+	}
+}
+
+//go:norace
 func (w *world) getDeviceKeys(devEUI lorawan.EUI64) (joinserver.DeviceKeys, error) {
 	simrt.Seam(10)
 	c := w.ctx()
 	simrt.Trace(evSto, 1, uint64(c.failKeys))
-	if c.slow {
-		simrt.Sleep(50e6)
-	}
+	w.slowDown(c)
 	switch c.failKeys {
 	case 1:
 		c.firedKeys = true
 		return joinserver.DeviceKeys{}, errInjected
 	case 2:
+		c.notFound = true
 		return joinserver.DeviceKeys{}, joinserver.ErrDevEUINotFound
 	}
 	rec, ok := w.byEUI[devEUI]
-	if !ok || !rec.known {
+	if !ok || !isKnown(rec.idx) {
+		c.notFound = true
 		return joinserver.DeviceKeys{}, joinserver.ErrDevEUINotFound
 	}
 	n := nextNonce(rec.idx)
@@ -219,30 +345,45 @@ func (w *world) getDeviceKeys(devEUI lorawan.EUI64) (joinserver.DeviceKeys, erro
 	return joinserver.DeviceKeys{DevEUI: devEUI, NwkKey: lorawan.AES128Key(d.NwkKey), AppKey: lorawan.AES128Key(d.AppKey), JoinNonce: n}, nil
 }
 
+//go:norace
 func (w *world) getKEK(label string) ([]byte, error) {
 	simrt.Seam(11)
 	c := w.ctx()
 	c.kekCalls++
-	simrt.Trace(evSto, 2, uint64(c.kekCalls))
-	if c.failKEK == c.kekCalls && c.failKEK > 0 {
+	// which of the two look-ups of a request this is follows from the label,
+	// not from the order of the calls (a handler may issue them in any order,
+	// or at the same time): the NS KEK is asked for under the SenderID
+	isNS := c.nsLabel != "" && (label == c.nsLabel || sameNetIDSpelling(label, c.nsLabel))
+	which := 2
+	if isNS {
+		which = 1
+	}
+	simrt.Trace(evSto, 2, uint64(which))
+	w.slowDown(c)
+	if c.failKEK == which {
 		c.firedKEK = true
 		return nil, errInjected
 	}
-	k := w.keks[label]
-	if c.kekCalls == 1 {
-		c.nsKEK = k
+	// (the store's own lock: a re-keyed entry is published by the operator and
+	// acquired by the readers that come after it)
+	atomic.LoadInt32(&kekPub)
+	k := kekGet(label)
+	if isNS {
+		c.nsKEK, c.nsServed = append([]byte(nil), k...), true
 	} else {
-		c.asKEK = k
+		c.asKEK, c.asServed = append([]byte(nil), k...), true
 	}
 	// storage hands out the slice it holds (as the repository's own test
 	// storage does): the handler must treat it as read-only
 	return k, nil
 }
 
+//go:norace
 func (w *world) getASLabel(devEUI lorawan.EUI64) (string, error) {
 	simrt.Seam(12)
 	c := w.ctx()
 	simrt.Trace(evSto, 3, 0)
+	w.slowDown(c)
 	if c.failLabel {
 		c.firedLabel = true
 		return "", errInjected
@@ -255,6 +396,7 @@ func (w *world) getASLabel(devEUI lorawan.EUI64) (string, error) {
 	return rec.asLabel, nil
 }
 
+//go:norace
 func (w *world) getHomeNetID(devEUI lorawan.EUI64) (lorawan.NetID, error) {
 	simrt.Seam(13)
 	c := w.ctx()
@@ -264,7 +406,7 @@ func (w *world) getHomeNetID(devEUI lorawan.EUI64) (lorawan.NetID, error) {
 		return lorawan.NetID{}, errInjected
 	}
 	rec, ok := w.byEUI[devEUI]
-	if !ok || !rec.known {
+	if !ok || !isKnown(rec.idx) {
 		return lorawan.NetID{}, joinserver.ErrDevEUINotFound
 	}
 	return rec.homeNet, nil
@@ -308,16 +450,44 @@ type respWriter struct {
 	code     int
 	buf      bytes.Buffer
 	writeErr bool
+	closed   bool // ServeHTTP has returned: the writer belongs to the server again
 }
 
-func (r *respWriter) Header() http.Header { return r.hdr }
+//go:norace
+func (r *respWriter) isClosed() bool { return r.closed }
+
+//go:norace
+func (r *respWriter) close() { r.closed = true }
+
+// late: the handler (a goroutine it left behind) uses the ResponseWriter
+// after ServeHTTP returned - net/http forbids that; behind a real server the
+// bytes would go to a recycled connection buffer, i.e. into another request.
+func (r *respWriter) late(what string) {
+	simrt.Count(cLateWrite)
+	simrt.Report("j5.response-written-after-return", "the handler called "+what+" on the http.ResponseWriter after ServeHTTP had returned (a goroutine left behind by the request still answers): behind a real server these bytes land in a connection that serves another request")
+}
+
+func (r *respWriter) Header() http.Header {
+	if r.isClosed() {
+		return http.Header{}
+	}
+	return r.hdr
+}
 func (r *respWriter) WriteHeader(c int) {
+	if r.isClosed() {
+		r.late("WriteHeader")
+		return
+	}
 	if r.code == 0 {
 		r.code = c
 	}
 }
 func (r *respWriter) Write(b []byte) (int, error) {
 	simrt.Seam(15)
+	if r.isClosed() {
+		r.late("Write")
+		return 0, http.ErrHandlerTimeout
+	}
 	if r.code == 0 {
 		r.code = 200
 	}
@@ -350,6 +520,7 @@ func (w *world) serve(body []byte, c *reqCtx) (int, []byte) {
 		simrt.Count(cNontrivial)
 	}
 	w.handler.ServeHTTP(rw, req)
+	rw.close()
 	leaveHandler()
 	if rw.code == 0 {
 		rw.code = 200
@@ -412,8 +583,10 @@ func build(sw *sim.World) {
 	nDev := 1 + simrt.Choose(6)
 	nNS := 1 + simrt.Choose(3)
 	w.faults = simrt.Choose(3) != 0
+	w.nNS = nNS
 	for i := 0; i < nDev; i++ {
 		rec := &devRec{idx: i, known: true}
+		setKnown(i, true)
 		r.Fill(rec.dev.DevEUI[:])
 		rec.dev.DevEUI[0] = byte(i + 1) // distinct
 		r.Fill(rec.dev.JoinEUI[:])
@@ -428,6 +601,7 @@ func build(sw *sim.World) {
 		}
 		if i > 0 && r.Intn(6) == 0 {
 			rec.known = false
+			setKnown(i, false)
 		}
 		setNonce(i, r.Intn(1<<20))
 		switch r.Intn(10) {
@@ -483,14 +657,17 @@ func build(sw *sim.World) {
 			break
 		}
 	}
-	w.keks0 = map[string][]byte{}
+	// the store the callbacks read (mutable: an operator may re-key a label);
+	// keks0 follows every change the HARNESS makes, so that a difference at the
+	// end of the run is a write by the handler into data storage handed out
+	kekReset()
 	for _, l := range sortedKeys(w.keks) {
-		w.keks0[l] = append([]byte(nil), w.keks[l]...)
+		kekSet(l, w.keks[l])
 	}
 	sw.Finish = append(sw.Finish, func() {
-		for _, l := range sortedKeys(w.keks0) {
-			if !bytes.Equal(w.keks[l], w.keks0[l]) {
-				simrt.Report("storage.kek-modified", fmt.Sprintf("the KEK stored under label %q was %x before the run and is %x after it: the handler wrote into data a storage callback returned", l, w.keks0[l], w.keks[l]))
+		for _, l := range kekLabels() {
+			if !bytes.Equal(kekGet(l), kekWant(l)) {
+				simrt.Report("storage.kek-modified", fmt.Sprintf("the KEK stored under label %q should be %x (as the operator last set it) and is %x after the run: the handler wrote into data a storage callback returned", l, kekWant(l), kekGet(l)))
 			}
 		}
 	})
@@ -529,25 +706,26 @@ func sortedKeys(m map[string][]byte) []string {
 // ---------------------------------------------------------------- NS task
 
 type request struct {
-	macVersion string // what the NS believes the device speaks; independent of OptNeg
-	sender     string // SenderID as this network server spells its NetID
-	kind       int    // 0 join, 1..3 rejoin type 0..2, 4 homeNS
-	gen        int    // key generation the device used to build the request
-	dev        spec.Device
-	rec        *devRec
-	nonce      uint16 // DevNonce or RJCount
-	phy        []byte
-	badMIC     bool
-	optNeg     bool
-	devAddr    lorawan.DevAddr
-	dl         lorawan.DLSettings
-	rxDelay    int
-	cfList     []byte
-	netID      lorawan.NetID
-	txID       uint32
-	joinEUI    [8]byte
-	viaClient  bool
-	rawKind    int // 0 well-formed, 1 empty, 2 junk, 3 wrong message type, 4 bad hex
+	macVersion  string // what the NS believes the device speaks; independent of OptNeg
+	sender      string // SenderID as this network server spells its NetID
+	kind        int    // 0 join, 1..3 rejoin type 0..2, 4 homeNS
+	gen         int    // key generation the device used to build the request
+	dev         spec.Device
+	rec         *devRec
+	nonce       uint16 // DevNonce or RJCount
+	phy         []byte
+	badMIC      bool
+	optNeg      bool
+	devAddr     lorawan.DevAddr
+	dl          lorawan.DLSettings
+	rxDelay     int
+	cfList      []byte
+	netID       lorawan.NetID
+	txID        uint32
+	joinEUI     [8]byte
+	viaClient   bool
+	rawKind     int  // 0 well-formed, 1 empty, 2 junk, 3 wrong message type, 4 bad hex
+	knownAtSend bool // storage knew the device when the request was built (it never forgets one)
 }
 
 func genCFList(r *sim.Rand) []byte {
@@ -588,7 +766,7 @@ func nsTask(w *world, id int, netID lorawan.NetID, senderID string, n int, sub u
 		if simrt.Dead() {
 			return
 		}
-		simrt.Progress()
+		sim.Op()
 		live := k == n // last request: faults have stopped (J6)
 		rq := &request{netID: netID, sender: senderID}
 		txID++
@@ -596,7 +774,7 @@ func nsTask(w *world, id int, netID lorawan.NetID, senderID string, n int, sub u
 		rq.rec = w.devs[r.Intn(len(w.devs))]
 		if live {
 			for _, d := range w.devs {
-				if d.known {
+				if isKnown(d.idx) {
 					rq.rec = d
 				}
 			}
@@ -629,7 +807,7 @@ func nsTask(w *world, id int, netID lorawan.NetID, senderID string, n int, sub u
 			rq.cfList = genCFList(r)
 			simrt.Count(cCFList)
 		}
-		c := &reqCtx{bodyErrAt: -1}
+		c := &reqCtx{bodyErrAt: -1, nsLabel: senderID}
 		faults := w.faults && !live
 		if faults {
 			if r.Intn(8) == 0 {
@@ -654,11 +832,48 @@ func nsTask(w *world, id int, netID lorawan.NetID, senderID string, n int, sub u
 				c.failNet = true
 			case 6:
 				c.overflow = true
-			case 7:
-				c.slow = true
+			case 7, 8:
+				// a slow storage back-end: every callback of this request takes
+				// this long (virtual time)
+				c.slow = []int64{50e6, 50e6, 900e6, 2e9, 4e9, 8e9, 31e9, 100e9}[r.Intn(8)]
 			}
 			if r.Intn(4) == 0 {
 				c.bodyShort = true
+			}
+		}
+		// the operator provisions a device that was unknown so far (requests for
+		// it were answered UnknownDevEUI until now and must succeed from now on)
+		if !live && r.Intn(6) == 0 {
+			for _, d := range w.devs {
+				if !isKnown(d.idx) {
+					setKnown(d.idx, true)
+					simrt.Count(fProvision)
+					break
+				}
+			}
+		}
+		// the operator re-keys a KEK label: a new slice in the store, or the
+		// bytes of the stored slice rewritten in place (only in worlds with ONE
+		// network-server task and while no request is inside the handler: the
+		// store does not write under a reader, and program order is the
+		// synchronisation between the last reader and the rewrite)
+		if faults && r.Intn(30) == 0 {
+			ls := kekLabels()
+			if len(ls) > 0 {
+				l := ls[r.Intn(len(ls))]
+				old := kekGet(l)
+				if validKEKLen(old) {
+					nk := r.Bytes(len(old))
+					if r.Intn(2) == 0 {
+						kekSet(l, nk)
+						atomic.AddInt32(&kekPub, 1)
+						simrt.Count(fKEKRotate)
+					} else if w.nNS == 1 && !handlerBusy() {
+						ownerWriteKEK(old, nk)
+						kekRewritten(old)
+						simrt.Count(fKEKInPlace)
+					}
+				}
 			}
 		}
 		// key rotation: the DevEUI is re-provisioned with new root keys (device
@@ -668,6 +883,7 @@ func nsTask(w *world, id int, netID lorawan.NetID, senderID string, n int, sub u
 			simrt.Count(fRotate)
 		}
 		rq.gen = curGen(rq.rec.idx)
+		rq.knownAtSend = isKnown(rq.rec.idx)
 		rq.dev = rq.rec.gens[rq.gen]
 		// the device builds its request with its own (spec) implementation
 		var netLE [3]byte
@@ -702,11 +918,15 @@ func nsTask(w *world, id int, netID lorawan.NetID, senderID string, n int, sub u
 	}
 }
 
+// ownerWriteKEK: the store rewrites a key it owns (the name marks a write a
+// caller is entitled to make, see the driver's race attribution).
+func ownerWriteKEK(dst, src []byte) { copy(dst, src) }
+
 func countFaults(c *reqCtx, rq *request) {
 	if c.failKeys == 1 {
 		simrt.Count(fStoKeys)
 	}
-	if c.failKeys == 2 || !rq.rec.known {
+	if c.failKeys == 2 || !isKnown(rq.rec.idx) {
 		simrt.Count(fUnknown)
 	}
 	if c.failKEK > 0 {
@@ -721,8 +941,11 @@ func countFaults(c *reqCtx, rq *request) {
 	if c.overflow {
 		simrt.Count(fNonce)
 	}
-	if c.slow {
+	if c.slow > 0 {
 		simrt.Count(fStoSlow)
+	}
+	if c.slow >= 1e9 {
+		simrt.Count(fSlowLong)
 	}
 	if c.bodyShort {
 		simrt.Count(fBodyShort)
@@ -775,7 +998,7 @@ func doRequest(w *world, r *sim.Rand, rq *request, c *reqCtx, faults, live bool)
 			if a > 0 {
 				simrt.Count(fRetryDup)
 				// the retry is a fresh delivery: new record, same plan
-				*c = reqCtx{bodyErrAt: -1, failKeys: c.failKeys, failKEK: c.failKEK, failLabel: c.failLabel, failNet: c.failNet, overflow: c.overflow, bodyShort: c.bodyShort}
+				*c = reqCtx{bodyErrAt: -1, nsLabel: c.nsLabel, failKeys: c.failKeys, failKEK: c.failKEK, failLabel: c.failLabel, failNet: c.failNet, overflow: c.overflow, bodyShort: c.bodyShort, slow: c.slow}
 			}
 			var base backend.BasePayloadResult
 			var got interface{}
@@ -852,7 +1075,7 @@ func doRequest(w *world, r *sim.Rand, rq *request, c *reqCtx, faults, live bool)
 	if c.writeErr {
 		// the response was cut by the writer: nothing to judge but that the
 		// handler survived; retry without the fault
-		*c = reqCtx{bodyErrAt: -1, failKeys: c.failKeys, failKEK: c.failKEK, failLabel: c.failLabel, failNet: c.failNet, overflow: c.overflow}
+		*c = reqCtx{bodyErrAt: -1, nsLabel: c.nsLabel, failKeys: c.failKeys, failKEK: c.failKEK, failLabel: c.failLabel, failNet: c.failNet, overflow: c.overflow, slow: c.slow}
 		simrt.Count(fRetryDup)
 		code, out = w.serve(body, c)
 	}
